@@ -115,6 +115,11 @@ fn parse_bulk_str(buf: &[u8]) -> Result<(BulkStrIndex, usize), ParseError> {
         return Err(ParseError::NotEnoughData);
     }
 
+    // The payload must be followed by CRLF.
+    if buf.get(consumed + content_size..consumed + content_size + 2) != Some(&[CR, LF][..]) {
+        return Err(ParseError::InvalidProtocol);
+    }
+
     let s = DataIndex(consumed, consumed + content_size);
     Ok((BulkStrIndex::Str(s), consumed + content_size + 2))
 }
